@@ -6,6 +6,7 @@ SPEC = dict(
          "http.Service, proxy.Proxy, cluster.Client, tcp.Mux and cluster.Service (real credential store on the leader) around a mock follower store and a mock leader database: "
          "local outcome {ErrNotLeader, wrapped ErrNotLeader, served, error} x redirect x leader address {known, empty, error} x 5 leader credential files x "
          "{no credentials, right, wrong password} x leader database {ok, error} x leader API address {known, unknown} (irrelevant combinations sampled), plus random files; "
+         "plus, for every kind x redirect x retries 0/1/3, the forwarded-to node answering with each error its store can answer with (not leader, leader not found, stale read, store not ready, execution error, the text unauthorized); "
          "plus sequences of 3-7 requests forwarded by ONE follower (one cluster.Client, one connection pool; each request carries a unique id that comes back in results and raft index) "
          "in which the mock leader answers some requests only after their deadline (timeout=100ms, leader delay 500ms, retries 0/1; slow request = execute/query/request/remove/stepdown); "
          "a case is non-trivial when the receiving node's store answers ErrNotLeader (single requests) or the sequence contains a slow request; distinct by the whole input",
@@ -16,7 +17,7 @@ SPEC = dict(
              "net/http, protobuf, gzip, tcp/pool's channel pool; the pool model abstracts a connection to the list of answers still owed on it"],
     assumptions=["no network faults between follower and leader other than expired read deadlines; timing of the sequence cases: deadline 100 ms, leader delay 500 ms, a failing sequence is re-run twice; leadership does not change while a request is in flight (explored by system tests, not modelled)"],
     case_preamble="From RQ Require Import Model.C19 Model.C18.\nFrom RQ Require Import Model.C20.\nOpen Scope string_scope.\n",
-    level_text="C20_forward_transparent, C20_redirect_not_forwarded, C20_forward_unauthorized, C20_at_most_once, C20_pool_transparent hold for every kind, environment and credentials; "
+    level_text="C20_forward_transparent, C20_redirect_not_forwarded, C20_forward_unauthorized, C20_forward_error_transparent, C20_redirect_only_if_requested, C20_at_most_once, C20_pool_transparent hold for every kind, environment and credentials; "
                "C20_never_local_on_follower_partial composes them with Model.C16's follower dispatch. Partial: leadership changes in flight and the real follower store for write kinds are not modelled.",
     level_note="proxy + handler error mapping + leader handler (C18 term) modelled; tie through the real forwarding path end to end with mocks at both ends.",
     technique="Coq proof over the proxy model composed with C18/C16 + end-to-end differential run through http.Service/proxy/cluster client/cluster service",
